@@ -1,6 +1,7 @@
 package main
 
 import (
+	"math"
 	"fmt"
 	"math/rand"
 	"sort"
@@ -507,6 +508,33 @@ func (modComp) Exec(c *wire.Case, w *wire.Writer) {
 				// change a stats snapshot handed out by the engine; must not reach the unit
 				st := eng.attr.Stats(t)
 				st.AddProperty("verif", prop.Property(op.Int("p")), op.Flt("x"))
+				// a snapshot's derived values are functions of its properties at the time of the question: reading them before a
+				// change must not matter for what they are after it (every stat property, every derived getter)
+				derived := func(s *info.Stats) [7]float64 {
+					return [7]float64{s.MaxHP(), s.CurrentHP(), s.ATK(), s.DEF(), s.SPD(), s.Aggro(), s.HP()}
+				}
+				stale := ""
+				for _, pp := range []prop.Property{prop.HPBase, prop.HPPercent, prop.HPFlat, prop.HPConvert, prop.ATKBase, prop.ATKPercent, prop.ATKFlat, prop.ATKConvert,
+					prop.DEFBase, prop.DEFPercent, prop.DEFFlat, prop.DEFConvert, prop.SPDBase, prop.SPDPercent, prop.SPDFlat, prop.SPDConvert, prop.AggroBase, prop.AggroPercent, prop.AggroFlat} {
+					read, fresh := eng.attr.Stats(t), eng.attr.Stats(t)
+					_ = derived(read)
+					read.AddProperty("verif", pp, 37.5)
+					fresh.AddProperty("verif", pp, 37.5)
+					same := true
+					dr, df := derived(read), derived(fresh)
+					for k := range dr {
+						if dr[k] != df[k] && !(math.IsNaN(dr[k]) && math.IsNaN(df[k])) {
+							same = false
+						}
+					}
+					if !same {
+						stale = pp.String()
+						break
+					}
+				}
+				if stale != "" {
+					sess.out = append(sess.out, wire.R("stale").S("prop", stale))
+				}
 			default:
 				sess.out = append(sess.out, wire.R("badop"))
 			}
